@@ -28,7 +28,7 @@ ASSUMPTIONS = [
     "files >= 1 MiB live on tmpfs; reads return full chunks (short reads are not simulated)",
 ]
 BUDGET = {"quick": (900, 4), "thorough": (48000, 16)}
-REQUIRED = ["multi_chunk", "multi_format", "c4_padded", "len0", "len_2^20", "len_2^20+1", "len_2^20-1"]
+REQUIRED = ["multi_chunk", "multi_format", "c4_padded", "len0", "len_2^20", "len_2^20+1", "len_2^20-1", "inplace_edit"]
 
 MIB = 1 << 20
 CLI = refhash.CLI_FORMATS
@@ -209,7 +209,21 @@ def run_case(scn, ctx):
                 pos = scn["cuts"][0] % n if scn["cuts"] else n - 1
                 mutated = bytearray(data)
                 mutated[pos] ^= 0x01
-                w.put(rel, bytes(mutated))
+                # in place: same inode, same size and - restored below - same modification time, so that only the
+                # bytes differ ("the result depends only on the bytes")
+                st_ = os.stat(path)
+                with open(path, "r+b") as fh:
+                    fh.seek(pos)
+                    fh.write(bytes(mutated[pos : pos + 1]))
+                os.utime(path, ns=(st_.st_atime_ns, st_.st_mtime_ns))
+                w.files[rel] = bytes(mutated)
+                for f in distinct:
+                    got = hasher.hash_file(path, f)
+                    want = refhash.digest(f, bytes(mutated))
+                    require(got == want, "hash_file_after_inplace_edit", lambda: "%s: %r after a same-size, same-mtime edit, reference %r" % (f, got, want))
+                got = hasher.multiple_format_hash_file(path, list(formats))
+                require(got == {f: refhash.digest(f, bytes(mutated)) for f in distinct}, "multi_file_after_inplace_edit", "stale digests after an in-place edit: %r" % got)
                 res = w.verify("R")
-                require(res.exit_code == 11, "verify_detects", "bit flip at %d of %d: %s" % (pos, n, res.brief()), res)
+                require(res.exit_code == 11, "verify_detects", "bit flip at %d of %d (size and mtime unchanged): %s" % (pos, n, res.brief()), res)
+                ctx.event("inplace_edit")
         return w.trace
